@@ -1,6 +1,6 @@
 (* ParseRun.v — run commands of the C05 family (drivers only). *)
 From Coq Require Import String.
-From Cedar Require Export Codec Unescape Print.
+From Cedar Require Export Codec Unescape Print Lexer Parse PrintToks.
 Open Scope string_scope.
 
 Definition e_ures {A} (f : A -> sexp) (r : ures A) : sexp :=
@@ -46,8 +46,70 @@ Definition run_c05_print_template (args : list sexp) : sexp :=
   | _ => bad_input
   end.
 
+(* ---- expression encoder (same syntax as the harness dump / vp/cedar.py::expr_sx) ---- *)
+Definition e_var (v : var) : sexp :=
+  SY (match v with Principal => "principal" | Action => "action" | Resource => "resource" | Context => "context" end).
+Definition e_unop (o : unop) : sexp := SY (match o with UNot => "not" | UNeg => "neg" | UIsEmpty => "isEmpty" end).
+Definition e_binop (o : binop) : sexp :=
+  SY (match o with
+      | BEq => "eq" | BLess => "less" | BLessEq => "lesseq" | BAdd => "add" | BSub => "sub" | BMul => "mul"
+      | BIn => "in" | BContains => "contains" | BContainsAll => "containsAll" | BContainsAny => "containsAny"
+      | BGetTag => "getTag" | BHasTag => "hasTag"
+      end).
+Fixpoint e_expr (e : expr) : sexp :=
+  match e with
+  | Lit p => SL [SY "lit"; e_prim p]
+  | Var v => SL [SY "var"; e_var v]
+  | Slot SlotPrincipal => SL [SY "slot"; SY "principal"]
+  | Slot SlotResource => SL [SY "slot"; SY "resource"]
+  | Unknown n _ => SL [SY "unknown"; SS n; SY "none"]
+  | If c t f => SL [SY "if"; e_expr c; e_expr t; e_expr f]
+  | And a b => SL [SY "and"; e_expr a; e_expr b]
+  | Or a b => SL [SY "or"; e_expr a; e_expr b]
+  | UnApp o a => SL [SY "unop"; e_unop o; e_expr a]
+  | BinApp o a b => SL [SY "binop"; e_binop o; e_expr a; e_expr b]
+  | ExtCall fn args => SL [SY "ext"; e_name fn; SL (map e_expr args)]
+  | GetAttr a k => SL [SY "getattr"; e_expr a; SS k]
+  | HasAttr a k => SL [SY "hasattr"; e_expr a; SS k]
+  | Like a p => SL [SY "like"; e_expr a; SL (map e_patelem p)]
+  | Is a t => SL [SY "is"; e_expr a; e_name t]
+  | SetE items => SL [SY "set"; SL (map e_expr items)]
+  | RecordE items =>
+      SL [SY "record";
+          SL ((fix go (l : list (str * expr)) : list sexp :=
+                 match l with [] => [] | (k, v) :: l' => SL [SS k; e_expr v] :: go l' end) items)]
+  end.
+
+(* (c05_parse_expr <text>) -> (ok <expr>) | reject | lexerr *)
+Definition run_c05_parse_expr (args : list sexp) : sexp :=
+  match args with
+  | [SS text] =>
+      match lex_text text with
+      | None => SY "lexerr"
+      | Some ts => match parse_expr_toks ts with Some e => e_tag "ok" [e_expr e] | None => SY "reject" end
+      end
+  | _ => bad_input
+  end.
+
+(* (c05_toks_check <np> <ge> <expr>) -> (<lex (show_expr e) = print_toks e> <parse (print_toks e) = e>) *)
+Definition run_c05_toks_check (args : list sexp) : sexp :=
+  match args with
+  | [np; ge; e] =>
+      match d_list d_N np, d_list d_N ge, d_expr e with
+      | Some np, Some ge, Some e =>
+          let ts := print_toks (in_set np) (in_set ge) e in
+          SL [e_bool (match lex_text (show_expr (in_set np) (in_set ge) e) with
+                      | Some ts' => tokens_eqb ts ts' | None => false end);
+              match parse_expr_toks ts with Some e' => e_tag "ok" [e_expr e'] | None => SY "reject" end]
+      | _, _, _ => bad_input
+      end
+  | _ => bad_input
+  end.
+
 Definition run_c05 (cmd : string) (args : list sexp) : option sexp :=
   if sym_eqb cmd "c05_escape" then Some (run_c05_escape args)
   else if sym_eqb cmd "c05_print_expr" then Some (run_c05_print_expr args)
   else if sym_eqb cmd "c05_print_template" then Some (run_c05_print_template args)
+  else if sym_eqb cmd "c05_parse_expr" then Some (run_c05_parse_expr args)
+  else if sym_eqb cmd "c05_toks_check" then Some (run_c05_toks_check args)
   else None.
